@@ -137,9 +137,9 @@ def pattern_lists(rng, count):
             return ["xor", e, x]
         return ["ite", x, e, rng.choice(base)]
 
-    off = rng.randrange(16) if count < 16 else 0
+    off = rng.randrange(18) if count < 18 else 0
     for i in range(count):
-        kind = (i + off) % 16
+        kind = (i + off) % 18
         k = rng.randint(2, 4)
         vs = rng.sample(base, k)
         terms = [v if rng.random() < 0.7 else sub(1) for v in vs]
@@ -214,6 +214,19 @@ def pattern_lists(rng, count):
             T = ["or", vs[0], vs[1]] if rng.random() < 0.5 else ["xor", vs[0], ["and", vs[1], rng.choice(base)]]
             x, y = rng.choice(base), rng.choice(base)
             e = rng.choice([["or", ["and", T, x], ["and", ["not", T], y]], ["xor", ["and", T, x], ["and", ["not", T], y]], ["ite", T, x, y], ["and", ["or", T, x], ["or", ["not", T], y]]])
+        elif kind in (16, 17):  # if-else shaped two-operand Or of conjunctions, exact and near misses: the complement of a
+            # conjunct of one side sits directly in the other side (mutually exclusive) or only NESTED in one of its operands
+            x = vs[0]
+            others = [v for v in base if v != x]
+            p, q, r = rng.choice(others), rng.choice(others), rng.choice(others)
+            nx = ["not", x]
+            first, comp = (x, nx) if kind == 16 else (nx, x)
+            nested = rng.choice([["xor", comp, r], ["or", comp, r], ["not", ["and", comp, r]], ["xor", ["and", comp, r], q], comp])
+            left = ["and", first, p] if rng.random() < 0.8 else ["and", first, p, rng.choice(others)]
+            right = ["and", q, nested]
+            e = ["or", left, right] if rng.random() < 0.5 else ["or", right, left]
+            if rng.random() < 0.3:
+                e = ["xor", e, rng.choice(others)]
         else:  # mix
             e = ["or", ["and", sub(1), sub(1)], ["and", sub(1), sub(1)], ["not", sub(1)]]
         e = wrap(e)
